@@ -596,6 +596,47 @@ pub mod extra {
             }));
             push("unbound variable inside a let that is used", format!("{} let, used in set {}", if top { "top-level" } else { "local" }, si), &s);
         }
+        // 3b-3e scoping: a variable that exists, but not in the scope where it is used
+        {
+            let n = base.sets.len();
+            // local to an EARLIER rule set, used in a later one
+            let mut s = base.clone();
+            let i = rng.below(n - 1);
+            let j = rng.range(i + 1, n - 1);
+            s.sets[i].entries.insert(0, Entry::Let("loc".to_string(), Re::Chr('a')));
+            s.sets[i].entries.push(Entry::Rule(Rule { id: 901, re: Re::cat(Re::var("loc"), Re::Chr('c')), ctx: None, act: Action::Simple(0) }));
+            let in_ctx = rng.chance(1, 3);
+            s.sets[j].entries.push(Entry::Rule(Rule {
+                id: 902,
+                re: if in_ctx { Re::Chr('b') } else { Re::cat(Re::var("loc"), Re::Chr('b')) },
+                ctx: if in_ctx { Some(Re::var("loc")) } else { None },
+                act: Action::Simple(0),
+            }));
+            push("variable local to an earlier rule set used in a later one", format!("let in set {}, use in set {}{}", i, j, if in_ctx { " (context)" } else { "" }), &s);
+            // local to a LATER rule set, used in an earlier one
+            let mut s = base.clone();
+            let j = rng.below(n - 1);
+            let i = rng.range(j + 1, n - 1);
+            s.sets[i].entries.insert(0, Entry::Let("loc".to_string(), Re::Chr('a')));
+            s.sets[i].entries.push(Entry::Rule(Rule { id: 901, re: Re::cat(Re::var("loc"), Re::Chr('c')), ctx: None, act: Action::Simple(0) }));
+            s.sets[j].entries.push(Entry::Rule(Rule { id: 902, re: Re::cat(Re::var("loc"), Re::Chr('b')), ctx: None, act: Action::Simple(0) }));
+            push("variable local to a later rule set used in an earlier one", format!("let in set {}, use in set {}", i, j), &s);
+            // used before its let inside the same rule set
+            let mut s = base.clone();
+            let i = rng.below(n);
+            s.sets[i].entries.push(Entry::Rule(Rule { id: 902, re: Re::cat(Re::var("late"), Re::Chr('b')), ctx: None, act: Action::Simple(0) }));
+            s.sets[i].entries.push(Entry::Let("late".to_string(), Re::Chr('a')));
+            s.sets[i].entries.push(Entry::Rule(Rule { id: 901, re: Re::cat(Re::var("late"), Re::Chr('c')), ctx: None, act: Action::Simple(0) }));
+            push("variable used before its let in the same rule set", format!("set {}", i), &s);
+            // top-level let written between two rule sets, used in a rule set before it
+            let mut s = base.clone();
+            let i = rng.range(1, n - 1);
+            s.sets[i].pre_lets.push(("mid".to_string(), Re::Chr('a')));
+            s.sets[i].entries.push(Entry::Rule(Rule { id: 901, re: Re::cat(Re::var("mid"), Re::Chr('c')), ctx: None, act: Action::Simple(0) }));
+            let j = rng.below(i);
+            s.sets[j].entries.push(Entry::Rule(Rule { id: 902, re: Re::cat(Re::var("mid"), Re::Chr('b')), ctx: None, act: Action::Simple(0) }));
+            push("top-level let between rule sets used in an earlier rule set", format!("let before set {}, use in set {}", i, j), &s);
+        }
         // 4-6 variable defined twice
         {
             let mut s = base.clone();
